@@ -926,6 +926,19 @@ theorem digestOutput_gets (md5 : Bytes → Bytes) (cr : Cred) (realm nonce secre
     refine ⟨?_, ?_, ?_, ?_, ?_, ?_, ?_, ?_⟩ <;>
       simp [mapGet?_insert_self, mapGet?_insert_ne, mapGet?, d1, d2, d3, d4, d5, d6, d7, d8, e2, e3, e4, e5, e6, e7, e8, f3, f4, f5, f6, f7, f8, g4, g5, g6, g7, g8, h5, h6, h7, h8, i6, i7, i8, j7, j8, k8, d1.symm, d2.symm, d3.symm, d4.symm, d5.symm, d6.symm, d7.symm, d8.symm, e2.symm, e3.symm, e4.symm, e5.symm, e6.symm, e7.symm, e8.symm, f3.symm, f4.symm, f5.symm, f6.symm, f7.symm, f8.symm, g4.symm, g5.symm, g6.symm, g7.symm, g8.symm, h5.symm, h6.symm, h7.symm, h8.symm, i6.symm, i7.symm, i8.symm, j7.symm, j8.symm, k8.symm]
 
+/-- an ASCII string is its own ISO 8859-1 form -/
+theorem digestEnc_ascii (b : Bytes) (h : ∀ c ∈ b, c < 128) : Ref.digestEnc b = b := by
+  have key : Ref.latin1? b = some b := by
+    induction b using Ref.latin1?.induct with
+    | case1 => rfl
+    | case2 c hc => simp [Ref.latin1?, hc]
+    | case3 c hc => exact absurd (h c (by simp)) hc
+    | case4 c d rest hc ih =>
+      rw [Ref.latin1?, if_pos hc, ih (fun x hx => h x (by simp [hx]))]; rfl
+    | case5 c d rest hc _ _ => exact absurd (h c (by simp)) hc
+    | case6 c d rest hc _ => exact absurd (h c (by simp)) hc
+  simp [Ref.digestEnc, key]
+
 /-! ## a toy hash family for the non-vacuity examples (fixed output length 2, not constant) -/
 
 def toyCrypto : Crypto :=
